@@ -36,7 +36,7 @@ def schema_model():
     m.classes["EnumType"].update({"add_to_address_allowlist": "method"})
     m.classes["OperationInfo"].update({"add_to_address_allowlist": "method"})
     m.classes["ExtendedOperationInfo"].update({"add_to_address_allowlist": "method"})
-    m.classes["Method"].update({"add_to_address_allowlist": "method", "operation_service": "Str", "with_internal_methods": "method",
+    m.classes["Method"].update({"add_to_address_allowlist": "method", "operation_service": "Str", "with_internal_methods": "method", "is_operation_polling_method": "Bool",
                                 "_fields": ["method_pb", "input", "output", "is_internal", "lro", "extended_lro", "meta"]})
     m.classes["Service"].update({"add_to_address_allowlist": "method", "operation_polling_method": "Opt[Method]", "is_internal": "Bool",
                                  "client_name": "Str", "async_client_name": "Str", "prune_messages_for_selective_generation": "method",
@@ -178,6 +178,11 @@ def contracts(m):
                        invariants={"for#1": [closed("address_allowlist", "S"), SUBSET.format(A="old_address_allowlist", B="address_allowlist"),
                                              "forall(lambda j: implies(self.methods.values()[j].ident.proto in method_allowlist, self.methods.values()[j].ident in address_allowlist and self.meta.address in address_allowlist), 0, _k)",
                                              MINIMAL.format(R="exists(lambda j: self.methods.values()[j].ident.proto in method_allowlist and (z is self.meta.address or reach(self.methods.values()[j].ident, z)), 0, _k)")]}))
+    # the polling method an operation service contributes ("plus an extended-operation polling method they need"): one of the service's own rpcs,
+    # flagged as polling method, None iff there is none
+    cs.append(Contract("Service.operation_polling_method", source=(W, "Service.operation_polling_method"), params={"self": "Service"}, result="Opt[Method]",
+                       ensures=["(result is None) == (not exists(lambda x: x.is_operation_polling_method, self.methods.values()))",
+                                "implies(result is not None, result.is_operation_polling_method and exists(lambda x: x is result, self.methods.values()))"]))
     # ---- internal mode ------------------------------------------------------------------------------------------------------
     cs.append(Contract("Method.with_internal_methods", source=(W, "Method.with_internal_methods"),
                        params={"self": "Method", "public_methods": "Set[Str]"}, result="Method",
